@@ -107,7 +107,14 @@ func TestWorker(t *testing.T) {
 	if mode == "" {
 		t.Skip("not driven by the verif driver")
 	}
-	for _, st := range props.SelfTests {
+	tests := props.SelfTestsOf[os.Getenv("VERIF_PROP")]
+	if mode == "selftest" {
+		tests = props.SelfTests
+	}
+	if mode == "describe" || mode == "gen" {
+		tests = nil
+	}
+	for _, st := range tests {
 		if err := st(); err != nil {
 			fmt.Fprintf(os.Stderr, "worker: model self-test failed: %v\n", err)
 			os.Exit(2)
